@@ -234,6 +234,22 @@ func call(r *ledger.Runner, from, to, fn string, input any, raw string, value ui
 	return r.Submit(r.W.MakeTxn(spec))
 }
 
+// setupRaw registers "tk.raw": a hand-written call (contract, function, raw JSON input) from account #A
+// (A < 0: the contracts' owner) with value I[0]. Plans never generate it; it exists for hand-written replays.
+func setupRaw(w *ledger.World, r *ledger.Runner) {
+	r.Ops["tk.raw"] = func(r *ledger.Runner, st sim.Step) {
+		addr := map[string]string{"vesting": ledger.AddrVesting, "faucet": ledger.AddrFaucet, "zcn": ledger.AddrZCN, "multisig": ledger.AddrMultisig}[st.Str(0, "vesting")]
+		if addr == "" {
+			return
+		}
+		from := w.OwnerID
+		if st.A >= 0 {
+			from, _ = w.Account(st.A)
+		}
+		call(r, from, addr, st.Str(1, ""), nil, st.Str(2, "{}"), uint64(st.Int(0, 0)), 0)
+	}
+}
+
 // ---- the mixed "tokens" workload for the core oracles ---------------------------------------------
 
 func init() {
@@ -261,6 +277,7 @@ func init() {
 			p.Steps = mix(r.Child("mix"), p.Steps, extra)
 		},
 		Setup: func(w *ledger.World, r *ledger.Runner) {
+			setupRaw(w, r)
 			setupFaucet(w, r)
 			setupVesting(w, r)
 			setupBridge(w, r)
